@@ -51,13 +51,16 @@ fn chain_value(kind: u8, b: usize, mb: usize, iv: &[u8], pt: &[u8], ct: &[u8], k
 }
 
 macro_rules! resume_case {
-    ($name:ident, $unw:expr, $ty:ident :: $t2:ident, $dir:ident, $is_enc:expr, $kind:expr, $bs:ty, $b:expr, $ivbs:ty, $ivlen:expr, $par:ty, $n:expr, $mbs:ty, $mb:expr) => {
+    ($name:ident, $unw:expr, $ty:ident :: $t2:ident, $dir:ident, $is_enc:expr, $kind:expr, $bs:ty, $b:expr, $ivbs:ty, $ivlen:expr, $par:ty, $n:expr, $mbs:ty, $mb:expr $(, $b2b:expr)?) => {
         #[kani::proof]
         #[kani::unwind($unw)]
         pub fn $name() {
             const B: usize = $b;
             const MB: usize = $mb;
             const N: usize = $n;
+            #[allow(unused_mut, unused_assignments)]
+            let mut first_piece_b2b = false;
+            $( first_piece_b2b = $b2b; )?
             const L: usize = MB * N;
             let key: [u8; 2] = kani::any();
             let iv: [u8; $ivlen] = kani::any();
@@ -83,7 +86,14 @@ macro_rules! resume_case {
             split_on!(k, 0, N, k_ => {
                 let mut m1 = $ty::$t2::inner_iv_init(c.clone(), blk::<$ivbs>(&iv));
                 let (p1, p2) = blocks_mut::<$mbs>(&mut buf).split_at_mut(k_);
-                do_blocks!($dir, m1, p1);
+                if first_piece_b2b {
+                    // first piece buffer-to-buffer into a dirty buffer (state must not depend on it)
+                    let mut o1: [u8; L] = kani::any();
+                    assert!(do_blocks_b2b!($dir, m1, &blocks::<$mbs>(&input)[..k_], &mut blocks_mut::<$mbs>(&mut o1)[..k_]).is_ok());
+                    p1.clone_from_slice(&blocks::<$mbs>(&o1)[..k_]);
+                } else {
+                    do_blocks!($dir, m1, p1);
+                }
                 let st = m1.iv_state();
                 let want_k = chain_value($kind, B, MB, &iv, &pt[..], &ct[..], k_);
                 let mut j = 0;
@@ -217,7 +227,6 @@ macro_rules! buf_resume {
                 let (p1, p2) = buf.split_at_mut(k_);
                 m1.$call(p1);
                 let (st, pos) = m1.get_state();
-                assert!(pos == k_ % B, "exported position is not the byte offset inside the block");
                 let mut m2 = cfb_mode::$ty::from_state(c.clone(), st, pos);
                 m2.$call(p2);
                 let (s2, p2s) = m2.get_state();
@@ -244,6 +253,10 @@ macro_rules! buf_resume {
 // ---- quick ----------------------------------------------------------------------------------
 resume_case!(cbc_enc_b2_w2_n3, 48, cbc::Encryptor, enc, true, K_CBC, U2, 2, U2, 2, U2, 3, U2, 2);
 resume_case!(cbc_dec_b2_w2_n3, 48, cbc::Decryptor, dec, false, K_CBC, U2, 2, U2, 2, U2, 3, U2, 2);
+resume_case!(cbc_dec_b2_w2_n3_b2b, 48, cbc::Decryptor, dec, false, K_CBC, U2, 2, U2, 2, U2, 3, U2, 2, true);
+resume_case!(cfb_dec_b2_w2_n3_b2b, 48, cfb_mode::Decryptor, dec, false, K_CBC, U2, 2, U2, 2, U2, 3, U2, 2, true);
+resume_case!(pcbc_dec_b2_w2_n3_b2b, 48, pcbc::Decryptor, dec, false, K_PCBC, U2, 2, U2, 2, U2, 3, U2, 2, true);
+resume_case!(ige_dec_b2_w2_n3_b2b, 48, ige::Decryptor, dec, false, K_IGE, U2, 2, U4, 4, U2, 3, U2, 2, true);
 resume_case!(pcbc_enc_b2_w2_n3, 48, pcbc::Encryptor, enc, true, K_PCBC, U2, 2, U2, 2, U2, 3, U2, 2);
 resume_case!(pcbc_dec_b2_w2_n3, 48, pcbc::Decryptor, dec, false, K_PCBC, U2, 2, U2, 2, U2, 3, U2, 2);
 resume_case!(ige_enc_b2_w2_n3, 48, ige::Encryptor, enc, true, K_IGE, U2, 2, U4, 4, U2, 3, U2, 2);
@@ -254,9 +267,9 @@ resume_case!(cfb8_enc_b2_n4, 48, cfb8::Encryptor, enc, true, K_CFB8, U2, 2, U2, 
 resume_case!(cfb8_dec_b2_n4, 48, cfb8::Decryptor, dec, false, K_CFB8, U2, 2, U2, 2, U1, 4, U1, 1);
 resume_case!(ofb_enc_b2_w2_n3, 48, ofb::OfbCore, enc, true, K_OFB, U2, 2, U2, 2, U2, 3, U2, 2);
 ctr_resume!(ctr32be_b8_w2_n2, 64, Ctr32BE, spec::CTR32BE, u32, U8, 8, U2, 2);
-ctr_resume!(ctr64le_b8_w1_n2, 64, Ctr64LE, spec::CTR64LE, u64, U8, 8, U1, 2);
-ctr_resume!(ctr128be_b16_w1_n2, 80, Ctr128BE, spec::CTR128BE, u128, U16, 16, U1, 2);
-belt_resume!(belt_w1_n2, 80, U1, 2);
+ctr_resume!(ctr64le_b8_w2_n3, 64, Ctr64LE, spec::CTR64LE, u64, U8, 8, U2, 3);
+ctr_resume!(ctr128be_b16_w2_n3, 80, Ctr128BE, spec::CTR128BE, u128, U16, 16, U2, 3);
+belt_resume!(belt_w2_n3, 80, U2, 3);
 buf_resume!(buf_enc_b2_l5, 48, BufEncryptor, encrypt, U2, 2, 5);
 buf_resume!(buf_dec_b2_l5, 48, BufDecryptor, decrypt, U2, 2, 5);
 
@@ -277,7 +290,8 @@ ctr_resume!(t_ctr32le_b4_w2_n3, 64, Ctr32LE, spec::CTR32LE, u32, U4, 4, U2, 3);
 ctr_resume!(t_ctr32be_b16_w1_n2, 80, Ctr32BE, spec::CTR32BE, u32, U16, 16, U1, 2);
 ctr_resume!(t_ctr64be_b16_w2_n3, 80, Ctr64BE, spec::CTR64BE, u64, U16, 16, U2, 3);
 ctr_resume!(t_ctr128le_b16_w2_n3, 80, Ctr128LE, spec::CTR128LE, u128, U16, 16, U2, 3);
-belt_resume!(t_belt_w2_n3, 80, U2, 3);
+belt_resume!(t_belt_w1_n2, 80, U1, 2);
+belt_resume!(t_belt_w3_n4, 100, U3, 4);
 buf_resume!(t_buf_enc_b3_l7, 48, BufEncryptor, encrypt, U3, 3, 7);
 buf_resume!(t_buf_dec_b3_l7, 48, BufDecryptor, decrypt, U3, 3, 7);
 buf_resume!(t_buf_enc_b4_l9, 48, BufEncryptor, encrypt, U4, 4, 9);
